@@ -15,7 +15,7 @@ import re
 import subprocess
 import sys
 
-REPO = "/repo"
+REPO = os.environ.get("MUT_REPO", "/tmp/mutwt")  # a scratch worktree of /repo's HEAD, never /repo itself
 ROOT = os.path.dirname(os.path.dirname(os.path.abspath(__file__)))
 
 FILE_TESTS = {
@@ -147,7 +147,10 @@ def main():
         for l in open(logp):
             r = json.loads(l)
             seen.add((r["file"], r["line"], r["new"]))
-    assert sh("git -C /repo status --porcelain")[1].strip() == "", "repo dirty"
+    if not os.path.isdir(REPO):
+        sh(f"git -C /repo worktree add --detach {REPO} HEAD")
+    assert sh(f"git -C {REPO} status --porcelain")[1].strip() == "", "scratch worktree dirty"
+    env = f"PYTHONPATH={REPO} VX_REPO={REPO} VX_JOBS=8 "
     for (i, old, new) in cands:
         if done >= limit:
             break
@@ -161,14 +164,14 @@ def main():
             rc, _ = sh(f"/venv/bin/python -m py_compile {path}", cwd=REPO)
             if rc != 0:
                 continue
-            rc, o = sh(f"/venv/bin/python -m pytest -q -x -p no:cacheprovider --timeout=300 -n 6 {FILE_TESTS[path]}", cwd=REPO, timeout=1200)
+            rc, o = sh(f"/venv/bin/python -m pytest -q -x -p no:cacheprovider --timeout=300 -n 4 {FILE_TESTS[path]}", cwd=REPO, timeout=1200)
             if rc != 0:
                 rec["result"] = "killed by tests"
             else:
                 rec["result"] = "survived tests"
                 rec["checks"] = {}
                 for chk in FILE_CHECKS[path]:
-                    rc, o = sh(f"./check {chk} --tier quick", cwd=ROOT, timeout=3000)
+                    rc, o = sh(env + f"./check {chk} --tier quick", cwd=ROOT, timeout=3000)
                     clauses = sorted({l.split("clause: ")[1].split(";")[0] for l in o.splitlines() if l.startswith("  clause: ")})[:3]
                     rec["checks"][chk] = {"rc": rc, "clauses": clauses}
                     if rc == 1:
@@ -176,7 +179,7 @@ def main():
                 rec["caught_by"] = [c for c, v in rec["checks"].items() if v["rc"] == 1]
             done += 1
         finally:
-            sh("git -C /repo checkout -- .")
+            sh(f"git -C {REPO} checkout -- .")
         print(json.dumps(rec), flush=True)
         with open(logp, "a") as f:
             f.write(json.dumps(rec) + "\n")
